@@ -31,7 +31,7 @@ ASSUMPTIONS = [
 FLOORS = {"cases:removal": 0.08, "cases:base-class-only": 0.05, "cases:strict": 0.3, "cases:raise": 0.03}
 
 RULE_CLASSES = ["ASTNode", *M.CLASS_NAMES]
-ACTIONS = ["keep", "clone", "rewrite", "replace", "remove", "raise"]
+ACTIONS = ["keep", "clone", "rewrite", "replace", "remove", "raise", "raise_nth"]
 
 
 class RuleError(Exception):
@@ -70,7 +70,9 @@ def removable_positions(root_e: T.ENode) -> dict[int, bool]:
     return ok
 
 
-def ref_transform(e: T.ENode, rules: dict, strict: bool, removable: dict, log: list, fired: list) -> R | None:
+def ref_transform(e: T.ENode, rules: dict, strict: bool, removable: dict, log: list, fired: list,
+                  counters: dict | None = None) -> R | None:
+    counters = counters if counters is not None else {}
     method = dispatch_ref(e.cls, set(rules), strict)
     log.append((method, e.uid))
     kids: dict = {}
@@ -82,7 +84,7 @@ def ref_transform(e: T.ENode, rules: dict, strict: bool, removable: dict, log: l
         elif isinstance(v, list):
             out = []
             for c in v:
-                r = ref_transform(c, rules, strict, removable, log, fired)
+                r = ref_transform(c, rules, strict, removable, log, fired, counters)
                 if r is None:
                     changed = True
                     continue
@@ -91,7 +93,7 @@ def ref_transform(e: T.ENode, rules: dict, strict: bool, removable: dict, log: l
                 out.append(r)
             kids[f.name] = out
         else:
-            r = ref_transform(v, rules, strict, removable, log, fired)
+            r = ref_transform(v, rules, strict, removable, log, fired, counters)
             kids[f.name] = r
             if r is None or r.orig is not v:
                 changed = True
@@ -103,6 +105,10 @@ def ref_transform(e: T.ENode, rules: dict, strict: bool, removable: dict, log: l
         return g
     action = rules[method[6:]]
     a = action[0]
+    if a == "raise_nth":
+        # the rule keeps its first firings and fails at a later one (after earlier siblings were rebuilt)
+        counters[method] = counters.get(method, 0) + 1
+        a = "raise" if counters[method] == 2 + action[1] % 3 else "keep"
     if a != "keep":
         fired.append((a, e.uid))
     if a == "keep":
@@ -144,10 +150,15 @@ def make_transformer(rules: dict, strict: bool, removable_live: dict, log: list,
     from pyoak.visitor import ASTTransformVisitor
 
     def make(cls_name: str, action: list):
+        count = [0]
+
         def visit(self, node):
             log.append((f"visit_{cls_name}", id(node)))
             new = ASTTransformVisitor.generic_visit(self, node)
             a = action[0]
+            if a == "raise_nth":
+                count[0] += 1
+                a = "raise" if count[0] == 2 + action[1] % 3 else "keep"
             if a == "keep":
                 return new
             if a == "raise":
@@ -295,6 +306,9 @@ def check_case(data: dict, lab: Labels) -> None:
         raised = True
         exp = None
     orig_ids = {id(n) for n in snap.nodes}
+    from pyoak.node import ASTNode as _AN
+
+    member_before = [(_AN.get_any(n.id) is n) for n in snap.nodes]
     try:
         res = tr.transform(root)
         require(not raised, "transform-should-raise", "a raise rule fired in the reference but transform returned")
@@ -307,6 +321,9 @@ def check_case(data: dict, lab: Labels) -> None:
     require(got_log == log_ref, "transform-dispatch-log", f"got {got_log[:12]} expected {log_ref[:12]}")
     d = snap.diff()
     require(d is None, "input-tree-modified", d or "")
+    member_after = [(_AN.get_any(n.id) is n) for n in snap.nodes]
+    require(member_after == member_before, "input-tree-registry-membership-changed",
+            f"raised={raised}: {sum(1 for x, y in zip(member_before, member_after) if x != y)} input nodes")
     for a, _ in fired:
         lab.tag("fired-" + a)
     removed = [u for a, u in fired if a == "remove" and removable.get(u)]
